@@ -71,6 +71,14 @@ def templates(tier):
     add("body0", [L("PUT / HTTP/1.0\r\ncontent-length: 0\r\n\r\n")], "PUT", [L("/")], [], [L("HTTP/1.0")], [("Content-Length", [L("0")])], [])
     add("body_then_more", [L("POST / HTTP/1.1\r\nContent-Length: 2\r\n\r\n"), Hh("x", 2, "byte"), L("GET / HTTP/1.1\r\n\r\n")],
         "POST", [L("/")], [], [L("HTTP/1.1")], [("Content-Length", [L("2")])], ["x"])
+    add("empty_value", [L("GET / HTTP/1.1\r\nHost:\r\nAccept: \r\nX-E:\t\r\n\r\n")], "GET", [L("/")], [], [L("HTTP/1.1")], [("Host", []), ("Accept", []), ("x-e", [])], None)
+    add("query_marks", [L("GET /"), Hh("p", 1, "path"), L("?"), Hh("q", 1, "query"), L("?"), Hh("r", 1, "query"), L(" HTTP/1.0\r\n\r\n")],
+        "GET", [L("/"), "p"], ["q", L("?"), "r"], [L("HTTP/1.0")], [], None)
+    add("path_colon", [L("DELETE /a:"), Hh("p", 2, "path"), L(" HTTP/1.1\r\nHost: h:"), Hh("a", 1, "hval1"), L("\r\n\r\n")],
+        "DELETE", [L("/a:"), "p"], [], [L("HTTP/1.1")], [("Host", [L("h:"), "a"])], None)
+    add("star_target", [L("OPTIONS * HTTP/1.1\r\n\r\n")], "OPTIONS", [L("*")], [], [L("HTTP/1.1")], [], None)
+    add("body0_then_more", [L("POST /x HTTP/1.1\r\nContent-Length: 0\r\n\r\nGET / HTTP/1.1\r\n\r\n")], "POST", [L("/x")], [], [L("HTTP/1.1")], [("Content-Length", [L("0")])], [])
+    add("body_lf_bytes", [L("PUT / HTTP/1.1\r\nContent-Length: 3\r\n\r\n\n"), Hh("x", 1, "byte"), L("\r")], "PUT", [L("/")], [], [L("HTTP/1.1")], [("Content-Length", [L("3")])], [L("\n"), "x", L("\r")])
     if tier == "thorough":
         add("long_path", [L("GET /"), Hh("p", 12, "path"), L("?"), Hh("q", 8, "query"), L(" HTTP/1."), Hh("v", 1, "digit01"), L("\r\n\r\n")],
             "GET", [L("/"), "p"], ["q"], [L("HTTP/1."), "v"], [], None)
@@ -183,7 +191,7 @@ def _job(name):
             valid(pc, None, "no panic: " + str(msg)[:100])
         exp_body = None if tpl["body"] is None else flat(tpl["body"], holes)
         consumed = sum(len(s[1]) if s[0] == "lit" else s[2] for s in tpl["segs"])
-        if name == "body_then_more":
+        if name in ("body_then_more", "body0_then_more"):
             consumed -= len("GET / HTTP/1.1\r\n\r\n")
         for pc, val, locs, heap in out.rets:
             if val[1] != "Ok":
